@@ -352,8 +352,11 @@ PROPS = {
         "modules": [T + "C13"],
         "theorems": [(T + "C13.compare_with_match", T + "C13"),
                      (T + "C13.compare_with_spec", T + "C13"),
-                     (T + "C13.compare_case_prefix_insensitive", T + "C13")],
-        "bv_decide_theorems": {'TlshVerif.Theorems.C13.compare_with_spec'},
+                     (T + "C13.compare_case_prefix_insensitive", T + "C13"),
+                     (T + "C13.compare_formatted", T + "C13"),
+                     (T + "C13.compare_formatted_symm", T + "C13")],
+        "bv_decide_theorems": {'TlshVerif.Theorems.C13.compare_with_spec', 'TlshVerif.Theorems.C13.compare_formatted',
+                               'TlshVerif.Theorems.C13.compare_formatted_symm'},
         # C13 is relative to parse-then-compare of this build: the probe's direct oracle states exactly that;
         # a value that differs from the reference is another property's business
         "spec_is_property": False,
